@@ -96,6 +96,87 @@ def prefixRun (fuel : Nat) (P : Prog) (sr : UInt64) (inputs : Nat → List UInt6
     | .error _ => none
     | .ok (o, m') => (prefixRun fuel P sr inputs n m').map fun r => (o :: r.1, r.2)
 
+/-! ### the layout of ALL stateful sites (statement-level)
+
+`pubE` publishes, for an `if`, the cells of the larger arm only (mirgen).  The reference semantics keeps a cell for every
+site that was ever evaluated, in both arms; `fullE` lists them all: same rules as `pubE`, but `if c a b` = `c ++ a ++ b`.
+For programs of the wide class (`noStatefulInArms`) it is the published layout plus zero-sized children of calls of
+functions without state; the theorems about sessions state the conformance of the uninterrupted run against it. -/
+
+mutual
+def fullE (tbl : Table) : Expr → Option (List LCell)
+  | .lit _ => some []
+  | .var _ => some []
+  | .now => some []
+  | .samplerate => some []
+  | .self => some []
+  | .lam _ _ => some []
+  | .un _ a => fullE tbl a
+  | .proj a _ => fullE tbl a
+  | .bin _ a b =>
+    match fullE tbl a, fullE tbl b with
+    | some s1, some s2 => some (s1 ++ s2)
+    | _, _ => none
+  | .letE _ a b =>
+    match fullE tbl a, fullE tbl b with
+    | some s1, some s2 => some (s1 ++ s2)
+    | _, _ => none
+  | .letTup _ a b =>
+    match fullE tbl a, fullE tbl b with
+    | some s1, some s2 => some (s1 ++ s2)
+    | _, _ => none
+  | .assign _ a b =>
+    match fullE tbl a, fullE tbl b with
+    | some s1, some s2 => some (s1 ++ s2)
+    | _, _ => none
+  | .ite c a b =>
+    match fullE tbl c, fullE tbl a, fullE tbl b with
+    | some sc, some sa, some sb => some (sc ++ (sa ++ sb))
+    | _, _, _ => none
+  | .tup es => fullL tbl es
+  | .app f args =>
+    match fullE tbl f, fullL tbl args with
+    | some s0, some s => some (s0 ++ s)
+    | _, _ => none
+  | .mem a site =>
+    match fullE tbl a with
+    | some s => some (s ++ [.mem site])
+    | none => none
+  | .delay n a t site =>
+    match fullE tbl a, fullE tbl t with
+    | some s1, some s2 => some (s1 ++ s2 ++ [.delay site n])
+    | _, _ => none
+  | .call f args site =>
+    match fullL tbl args, tbl f with
+    | some s, some lay => some (s ++ [.child site lay.self lay.cells])
+    | _, _ => none
+def fullL (tbl : Table) : List Expr → Option (List LCell)
+  | [] => some []
+  | e :: es =>
+    match fullE tbl e, fullL tbl es with
+    | some s1, some s2 => some (s1 ++ s2)
+    | _, _ => none
+end
+
+/-- the table of full layouts for call depth ≤ `n` -/
+def tableF (P : Prog) : Nat → Table
+  | 0, _ => none
+  | n + 1, f =>
+    match findFn P.fns f with
+    | none => none
+    | some d =>
+      match fullE (tableF P n) d.body with
+      | some cells => some ⟨d.selfShape, cells⟩
+      | none => none
+
+/-- the layout of all stateful sites of a function -/
+def fullFnN (n : Nat) (P : Prog) (d : FnDecl) : Option LNode :=
+  match fullE (tableF P n) d.body with
+  | some cells => some ⟨d.selfShape, cells⟩
+  | none => none
+
+def fullFn (P : Prog) (d : FnDecl) : Option LNode := fullFnN P.fns.length P d
+
 /-- a program that does not compile (syntax error, …): it has no published layout, so swapping to it is refused -/
 def brokenProg : Prog := ⟨[], [], ⟨"dsp", [], .call "" [] 0, none⟩⟩
 
